@@ -75,3 +75,7 @@ CORPUS += [
 CORPUS += [
     M("supported-for-empty-exchange", D, "        self._supported = len(valid_responses) > 0", "        self._supported = len(valid_responses) >= 0"),
 ]
+# round 8 (C13.c): the operations store no exposed state themselves
+CORPUS += [
+    M("capabilities-reset-before-query", D, "        # Send capabilities request and get a response\n        cmd = GetCapabilitiesCommand()", "        self._supported_rate_selects = [AirConditioner.RateSelect.OFF]\n        # Send capabilities request and get a response\n        cmd = GetCapabilitiesCommand()"),
+]
